@@ -118,11 +118,13 @@ pub struct Opts {
     pub no_mutation: bool,
     /// Write parameter and return type annotations on defs.
     pub annotate: bool,
+    /// Module-level optimiser-shaped defs under arbitrary signatures with well- and ill-formed calls (uses `catch`).
+    pub inline_probes: bool,
 }
 
 impl Default for Opts {
     fn default() -> Opts {
-        Opts { profile: Profile::Shared, max_stmts: 24, fail_pct: 25, inner_emits: true, markers: true, no_mutation: false, annotate: false }
+        Opts { profile: Profile::Shared, max_stmts: 24, fail_pct: 25, inner_emits: true, markers: true, no_mutation: false, annotate: false, inline_probes: false }
     }
 }
 
@@ -1224,7 +1226,13 @@ impl<'a, 'c> Gen<'a, 'c> {
             }
             4 => self.stmt_if(),
             5 => self.stmt_for(),
-            6 => self.stmt_def(),
+            6 => {
+                if self.o.inline_probes && self.scopes.len() == 1 && self.indent == 0 && self.ch.chance(1, 2) {
+                    self.stmt_inline_probe()
+                } else {
+                    self.stmt_def()
+                }
+            }
             7 => {
                 if self.o.no_mutation {
                     self.stmt_emit()
@@ -1675,6 +1683,118 @@ impl<'a, 'c> Gen<'a, 'c> {
             let args: Vec<String> = f.params.iter().map(|(_, t, _)| if self.ch.bool() { self.fresh_expr(t, 2) } else { self.expr(t, 2, !t.is_sized()) }).collect();
             self.label("call");
             self.line(&format!("emit({}({}))", callee(&f.name), args.join(", ")));
+        }
+    }
+
+    /// Optimiser-shaped def under an arbitrary signature, called with well- and ill-formed argument lists: the bodies
+    /// are the shapes `def_inline.rs` recognises (`return type(p) == "T"`, a return of an expression over parameters and
+    /// constants, an empty body); whether a call binds, and to what, must not depend on whether the callee is visible.
+    fn stmt_inline_probe(&mut self) {
+        self.label("inline_probe");
+        self.label("call");
+        let name = self.fresh("f");
+        let np = 1 + self.ch.idx(3);
+        let names: Vec<String> = (0..np).map(|_| self.fresh("p")).collect();
+        // markers: `/` after position a (a >= 1), bare `*` before position b, defaults on a suffix, *args, **kwargs
+        let slash_after = if self.ch.chance(1, 4) { Some(1 + self.ch.idx(np)) } else { None };
+        let star_before = if self.ch.chance(1, 3) { Some(self.ch.idx(np)) } else { None };
+        let star_before = match (slash_after, star_before) {
+            (Some(a), Some(b)) if b < a => Some(a),
+            (_, b) => b,
+        };
+        let use_star_args = star_before.is_some() && self.ch.chance(1, 3);
+        let defaults_from = if self.ch.chance(1, 3) { self.ch.idx(np + 1) } else { np };
+        let kwargs = self.ch.chance(1, 6);
+        let mut sig: Vec<String> = Vec::new();
+        for (i, n) in names.iter().enumerate() {
+            if star_before == Some(i) {
+                sig.push(if use_star_args { "*rest".to_owned() } else { "*".to_owned() });
+            }
+            // a parameter after `*` may have a default independently of the others
+            let kwonly = star_before.map(|b| i >= b).unwrap_or(false);
+            if i >= defaults_from || (kwonly && self.ch.chance(1, 3)) {
+                sig.push(format!("{n} = {}", 100 + i));
+            } else if i > defaults_from {
+                sig.push(format!("{n} = {}", 100 + i));
+            } else {
+                sig.push(n.clone());
+            }
+            if slash_after == Some(i + 1) {
+                sig.push("/".to_owned());
+            }
+        }
+        if star_before == Some(np) && np > 0 {
+            if use_star_args {
+                sig.push("*rest".to_owned());
+            }
+        }
+        if kwargs {
+            sig.push("**kw".to_owned());
+        }
+        // positional parameters with a default may not be followed by one without
+        let mut seen_default = false;
+        for (i, s) in sig.clone().iter().enumerate() {
+            if s.starts_with('*') {
+                break;
+            }
+            if s == "/" {
+                continue;
+            }
+            if s.contains(" = ") {
+                seen_default = true;
+            } else if seen_default {
+                sig[i] = format!("{s} = 9{i}");
+            }
+        }
+        self.line(&format!("def {name}({}):", sig.join(", ")));
+        let p0 = names[0].clone();
+        let pl = names.last().unwrap().clone();
+        let all = names.join(", ");
+        let body = match self.ch.below(12) {
+            0 | 1 => format!("return type({p0}) == \"int\""),
+            2 => format!("return type({p0}) == \"string\""),
+            3 => format!("return {p0}"),
+            4 => format!("return ({all},)"),
+            5 => format!("return [{pl}, 7]"),
+            6 => format!("return {p0} + 1"),
+            7 => format!("return {pl} if {p0} else 0"),
+            8 => "pass".to_owned(),
+            9 => format!("return \"%s|%s\" % ({p0}, {pl})"),
+            10 => format!("return {{\"k\": {p0}}}"),
+            _ => format!("return {p0}[0]"),
+        };
+        self.indent += 1;
+        self.line(&body);
+        self.indent -= 1;
+        let ncalls = 1 + self.ch.idx(3);
+        for _ in 0..ncalls {
+            let mut args: Vec<String> = Vec::new();
+            let npos = self.ch.idx(np + 2);
+            for i in 0..npos {
+                args.push(konst(format!("{}", 1 + i)));
+            }
+            // named arguments: a subset of the parameter names (possibly already filled) and sometimes a foreign name
+            for (i, n) in names.iter().enumerate() {
+                if self.ch.chance(1, 3) {
+                    args.push(format!("{n} = {}", konst(format!("{}", 11 + i))));
+                }
+            }
+            if self.ch.chance(1, 8) {
+                args.push(format!("zz = {}", konst("55".to_owned())));
+            }
+            if self.ch.chance(1, 6) {
+                args.push(format!("*{}", konst(format!("[{}]", ["", "21", "21, 22"][self.ch.idx(3)]))));
+            }
+            if self.ch.chance(1, 6) {
+                let k = if self.ch.bool() { pl.clone() } else { "zk".to_owned() };
+                args.push(format!("**{}", konst(format!("{{\"{k}\": 31}}"))));
+            }
+            let call = format!("{}({})", callee(&name), args.join(", "));
+            if self.ch.chance(1, 4) {
+                self.line(&format!("emit({call})"));
+            } else {
+                self.line(&format!("emit(catch(lambda: {call}))"));
+            }
         }
     }
 
